@@ -15,8 +15,8 @@ import (
 
 // H04.policy: the policy-agent authenticator. The call to the agent (HTTP and
 // JSON) is a stub that returns an ARBITRARY decision of its type: allow or
-// not, error strings from the documented set or none, roles and key names
-// from a small alphabet, or a transport error. For every combination of
+// not, error strings from the documented set or none, 0..2 roles and key
+// names, or a transport error. For every combination of
 // bearer token (absent / other scheme / "bearer" in any case) and client
 // certificate (present or not): without either no decision is asked for and
 // the answer is "token required"; an identity is returned only when the
@@ -27,25 +27,30 @@ import (
 // named in allowed_keys or shares a role.
 func VH_C04_PolicyAuthenticator() {
 	// vh:stubbed
-	words := []string{"release", "dev", "k1", "k2"}
-	pick := func(tag string) []string {
-		var out []string
-		n := vhConcretize(vhInt(tag+"-count", 0, 2), 3)
-		for i := 0; i < n; i++ {
-			out = append(out, words[vhConcretize(vhInt(tag, 0, 3), 4)])
+	lists := func(tag string, a, b string) []string {
+		switch vhConcretize(vhInt(tag, 0, 2), 3) {
+		case 1:
+			return []string{a}
+		case 2:
+			return []string{b, a}
 		}
-		return out
+		return nil
 	}
 	decision := &policyResponse{ID: "d-1"}
-	decision.Result.Allow = vhBool("agent-allows")
 	decision.Result.Subject = "carol"
-	decision.Result.Roles = pick("role")
-	decision.Result.AllowedKeys = pick("key")
-	errChoices := []string{"", "token is expired", "token is not yet valid", "token issuer is not in known_issuers", "token is missing or not well-formed", "role not permitted"}
-	if e := errChoices[vhConcretize(vhInt("agent-error", 0, 5), 6)]; e != "" {
-		decision.Result.Errors = []string{"something else", e}
-	}
 	agentFails := vhBool("agent-unreachable")
+	if !agentFails {
+		decision.Result.Allow = vhBool("agent-allows")
+		if decision.Result.Allow {
+			decision.Result.Roles = lists("roles", "release", "dev")
+			decision.Result.AllowedKeys = lists("allowed-keys", "k1", "k2")
+		} else {
+			errChoices := []string{"", "token is expired", "token is not yet valid", "token issuer is not in known_issuers", "token is missing or not well-formed", "role not permitted"}
+			if e := errChoices[vhConcretize(vhInt("agent-error", 0, 5), 6)]; e != "" {
+				decision.Result.Errors = []string{"something else", e}
+			}
+		}
+	}
 	asked := 0
 	var sawToken, sawFingerprint string
 	vhStub("(*github.com/sassoftware/relic/v8/internal/authmodel.PolicyAuth).evaluate", func(a *PolicyAuth, ctx context.Context, input policyInput) (*policyResponse, error) {
@@ -99,8 +104,8 @@ func VH_C04_PolicyAuthenticator() {
 	vhAssert(err == nil && pi != nil && pi.Subject == "carol" && pi.DecisionID == "d-1", "allowed-identity-is-the-agents")
 	vhAssert(len(pi.Roles) == len(decision.Result.Roles) && len(pi.AllowedKeys) == len(decision.Result.AllowedKeys), "roles-and-keys-are-the-agents")
 	// entitlement per key
-	key := &config.KeyConfig{Token: "t", Roles: pick("key-role")}
-	conf := &config.Config{Tokens: map[string]*config.TokenConfig{"t": {}}, Keys: map[string]*config.KeyConfig{words[vhConcretize(vhInt("key-name", 2, 3), 4)]: key}}
+	key := &config.KeyConfig{Token: "t", Roles: lists("key-roles", "dev", "qa")}
+	conf := &config.Config{Tokens: map[string]*config.TokenConfig{"t": {}}, Keys: map[string]*config.KeyConfig{[]string{"k1", "k3"}[vhConcretize(vhInt("key-name", 0, 1), 2)]: key}}
 	vhAssert(conf.Normalize("/etc/relic.yml") == nil, "configuration-normalizes")
 	want := false
 	for _, k := range pi.AllowedKeys {
